@@ -330,6 +330,10 @@ def sim_delay_cases(ctx):
             mult = rng.choice([1, 2, Fraction(1, 2), Fraction(3, 2), Fraction(5, 4), 0, 3])
             m["algebraics"].append({"name": "dly0"})
             m["delays"].append(["dly0", ["v", src], str(mult * m["dt"])])
+        if len(specs) < 2:
+            # (independent of the random stream) delays of 5/4 and 9/4 steps: longer than a step, not a multiple
+            # of it, nearer to the smaller multiple
+            m["delays"][0][2] = str([Fraction(5, 4), Fraction(9, 4)][len(specs)] * m["dt"])
         m["nsteps"] = max(m["nsteps"], 5)
         for u in m["series"]:
             m["series"][u] = m["series"][u][: m["nsteps"] + 1]
